@@ -85,6 +85,18 @@ def _plain_attr_names(m, arg) -> bool:
     return False
 
 
+def _has_module_level_updates(m, name) -> bool:
+    """is the module-level table completed by statements after its assignment (`T.update(...)`, `T[k] = v`)?"""
+    for st in m.tree.body:
+        if isinstance(st, ast.Expr) and isinstance(st.value, ast.Call) and isinstance(st.value.func, ast.Attribute) and isinstance(st.value.func.value, ast.Name) and st.value.func.value.id == name:
+            return True
+        if isinstance(st, ast.Assign) and any(isinstance(t, ast.Subscript) and isinstance(t.value, ast.Name) and t.value.id == name for t in st.targets):
+            return True
+        if isinstance(st, ast.AugAssign) and isinstance(st.target, ast.Name) and st.target.id == name:
+            return True
+    return False
+
+
 def run(cx):
     mods = [mod(f) for f in TRANSPILE]
     pm = mods[0]
@@ -156,6 +168,50 @@ def run(cx):
     # identity, a safe builtin, or a function of the scope (which is then checked like the evaluator itself)
     scope = {"_eval_const": ev}
     safe_tables = {}
+    value_tables = {}
+    closure_envs = {}
+    import operator as _opm
+    SAFE_PY = {int, float, str, bool, len, abs, max, min, round, tuple, list}
+
+    def _holds_callable(v_):
+        return callable(v_) or isinstance(v_, (dl.Closure, ast.FunctionDef)) or (isinstance(v_, (tuple, list)) and any(_holds_callable(e_) for e_ in v_))
+
+    def _show_value(v_):
+        if isinstance(v_, dl.Closure):
+            return f"<closure {v_.fn.name}>"
+        if isinstance(v_, ast.FunctionDef):
+            return v_.name
+        if isinstance(v_, (tuple, list)):
+            return "(" + ", ".join(_show_value(e_) for e_ in v_) + ")"
+        return getattr(v_, "__name__", repr(v_))
+
+    def _safe_value(v_):
+        """(is the value a safe callable / plain datum?, [(function node, closure env)] to be scanned as part of the scope)"""
+        if v_ is None or isinstance(v_, (bool, int, float, str)):
+            return True, []
+        if isinstance(v_, lit.Ref):
+            nm_ = v_.name
+            return (nm_ in (SAFE_EV_BUILTINS - {"type", "isinstance"}) or (nm_.split(".")[0] in ("op", "operator") and nm_.split(".")[-1] in SAFE_OPERATOR)), []
+        if isinstance(v_, (tuple, list)):
+            oks, cl = True, []
+            for e_ in v_:
+                o_, c_ = _safe_value(e_)
+                oks = oks and o_
+                cl += c_
+            return oks, cl
+        if isinstance(v_, dl.Closure):
+            return True, [(v_.fn, v_.env)]
+        if isinstance(v_, ast.FunctionDef):
+            return True, [(v_, None)]
+        if getattr(v_, "_dl_lambda", False):
+            nd = getattr(v_, "_dl_node", None)
+            return (nd is not None and _identity_lambda(nd)), []
+        if v_ in SAFE_PY:
+            return True, []
+        if getattr(_opm, getattr(v_, "__name__", ""), None) is v_ and v_.__name__ in SAFE_OPERATOR:
+            return True, []
+        return False, []
+
     work = [ev]
     module_fns = {q: f for q, f in pm.funcs.items() if "." not in q}
 
@@ -180,13 +236,36 @@ def run(cx):
             if isinstance(x, ast.Call) and isinstance(x.func, ast.Name) and x.func.id in module_fns and x.func.id not in scope and x.func.id not in ("_ensure_representable",):
                 scope[x.func.id] = module_fns[x.func.id]
                 work.append(module_fns[x.func.id])
-            if isinstance(x, ast.Name) and x.id in pm.consts and isinstance(pm.consts[x.id], ast.Dict) and x.id not in safe_tables:
+            if isinstance(x, ast.Name) and x.id in pm.consts and x.id not in safe_tables and x.id not in value_tables:
                 tbl_ = pm.consts[x.id]
-                if tbl_.values and not all(isinstance(v_, ast.Constant) for v_ in tbl_.values):
+                simple = isinstance(tbl_, ast.Dict) and tbl_.values and not any(isinstance(v_, (ast.Tuple, ast.List, ast.Call)) for v_ in tbl_.values) and not _has_module_level_updates(pm, x.id)
+                if simple:
+                    if not all(isinstance(v_, ast.Constant) for v_ in tbl_.values):
+                        safe_tables[x.id] = tbl_
+                        for k, v in zip(tbl_.keys, tbl_.values):
+                            kd = dotted(k) or norm(k)
+                            r.check(table_value_ok(v), f"_eval_const/table[{kd}]->{dotted(v) or ('lambda' if isinstance(v, ast.Lambda) else norm(v))}", (pm, v), f"dispatch table {x.id} maps {kd} to {norm(v)}, which is neither a pure operator.* function, a safe builtin nor a checked helper of the evaluator")
+                    continue
+                # a table that is computed (comprehension, factory calls, tuples of (folder, flag), completed by .update()):
+                # evaluate it as the import of the module does and judge the values it holds
+                if isinstance(tbl_, (ast.Dict, ast.DictComp, ast.Call)):
+                    try:
+                        val_ = dl.Interp(pm).expr(ast.Name(id=x.id, ctx=ast.Load()), dl.Env(None))
+                    except dl.Unsupported:
+                        continue
+                    if not isinstance(val_, dict) or not any(_holds_callable(v_) for v_ in val_.values()):
+                        continue
+                    value_tables[x.id] = val_
                     safe_tables[x.id] = tbl_
-                    for k, v in zip(tbl_.keys, tbl_.values):
-                        kd = dotted(k) or norm(k)
-                        r.check(table_value_ok(v), f"_eval_const/table[{kd}]->{dotted(v) or ('lambda' if isinstance(v, ast.Lambda) else norm(v))}", (pm, v), f"dispatch table {x.id} maps {kd} to {norm(v)}, which is neither a pure operator.* function, a safe builtin nor a checked helper of the evaluator")
+                    for k_, v_ in val_.items():
+                        okv_, closures_ = _safe_value(v_)
+                        for fn_node, fenv in closures_:
+                            qn = pm.qualname_of(fn_node) if hasattr(pm, "qualname_of") else getattr(fn_node, "name", "?")
+                            if qn not in scope:
+                                scope[qn] = fn_node
+                                closure_envs[qn] = fenv
+                                work.append(fn_node)
+                        r.check(okv_, f"_eval_const/table[{k_!r}]->{_show_value(v_)}", (pm, tbl_), f"dispatch table {x.id} maps {k_!r} to {_show_value(v_)}, which is neither a pure operator.* function, a safe builtin nor a checked helper of the evaluator")
     module_tables = safe_tables
     for n in ast.walk(ev):
         if isinstance(n, ast.Dict) and n.keys and all(isinstance(k, ast.Attribute) and (dotted(k) or "").startswith("ast.") for k in n.keys):
@@ -205,8 +284,11 @@ def run(cx):
                 ok = False
                 why = norm(f)
                 if isinstance(f, ast.Name):
+                    fenv_ = closure_envs.get(sq)
                     if f.id in local_defs or f.id in SAFE_EV_BUILTINS:
                         ok = True
+                    elif fenv_ is not None and f.id in fenv_ and f.id not in {a_.arg for a_ in sfn.args.posonlyargs + sfn.args.args + sfn.args.kwonlyargs} and _safe_value(fenv_[f.id])[0]:
+                        ok = True          # a free variable of a factory-made folder (`cast` in `_fold_cast(cast)`), bound to a safe callable
                     elif f.id == "_ensure_representable":   # a pure range check on the folded value (its verdicts are decided by C11-CONVERT)
                         ok = True
                     else:
@@ -226,6 +308,8 @@ def run(cx):
                                 return dn_.split(".")[0] in ("op", "operator") and dn_.split(".")[-1] in SAFE_OPERATOR
                             return False
                         ds_ = [x.value for x in ast.walk(sfn) if isinstance(x, ast.Assign) and len(x.targets) == 1 and isinstance(x.targets[0], ast.Name) and x.targets[0].id == f.id]
+                        # `folder, variadic = TABLE[name]`: the row of a checked table (every element of every row was judged)
+                        ds_ += [x.value for x in ast.walk(sfn) if isinstance(x, ast.Assign) and len(x.targets) == 1 and isinstance(x.targets[0], (ast.Tuple, ast.List)) and any(isinstance(e_, ast.Name) and e_.id == f.id for e_ in x.targets[0].elts)]
                         ok = bool(ds_) and all(safe_callable_expr(d_) for d_ in ds_)
                 elif isinstance(f, ast.Attribute):
                     dn = dotted(f) or ""
